@@ -441,7 +441,7 @@ fn read_method<C: ClassVisitor>(reader: &mut impl ClassRead, visitor: C, pool: &
 					name if name == attribute::ANNOTATION_DEFAULT && !interests.annotation_default => reader.skip(length as i64)?,
 					name if name == attribute::ANNOTATION_DEFAULT => {
 						let (visitor, x) = method_visitor.visit_annotation_default()?;
-						let x = read_element_value_unnamed(reader, pool, x)?;
+						let x = read_element_value_unnamed(reader, pool, x, 0)?;
 						method_visitor = MethodVisitor::finish_annotation_default(visitor, x)?;
 					},
 					name if name == attribute::METHOD_PARAMETERS && !interests.method_parameters => reader.skip(length as i64)?,
@@ -1258,7 +1258,7 @@ fn read_annotations_attribute<A: AnnotationsVisitor>(reader: &mut impl ClassRead
 
 		let (visitor, named_element_values_visitor) = annotations_visitor.visit_annotation(annotation_descriptor)?;
 
-		let named_element_values_visitor = read_element_values_named(reader, pool, named_element_values_visitor)?;
+		let named_element_values_visitor = read_element_values_named(reader, pool, named_element_values_visitor, 0)?;
 
 		annotations_visitor = AnnotationsVisitor::finish_annotation(visitor, named_element_values_visitor)?;
 	}
@@ -1266,7 +1266,16 @@ fn read_annotations_attribute<A: AnnotationsVisitor>(reader: &mut impl ClassRead
 	Ok(annotations_visitor)
 }
 
-fn read_element_values_named<A: NamedElementValuesVisitor>(reader: &mut impl ClassRead, pool: &PoolRead, mut outer: A) -> Result<A> {
+/// The deepest nesting of element values (annotations inside annotations, arrays) that is read.
+///
+/// The nesting is driven by the input, and every level is a level of recursion here, so without a limit a crafted
+/// `RuntimeVisibleAnnotations` attribute of a few megabytes overflows the stack.
+const MAX_ELEMENT_VALUE_NESTING: u8 = 64;
+
+fn read_element_values_named<A: NamedElementValuesVisitor>(reader: &mut impl ClassRead, pool: &PoolRead, mut outer: A, depth: u8) -> Result<A> {
+	if depth >= MAX_ELEMENT_VALUE_NESTING {
+		bail!("element values are nested more than {MAX_ELEMENT_VALUE_NESTING} levels deep");
+	}
 	for _ in 0..reader.read_u16()? {
 		let name = pool.get_utf8(reader.read_u16()?)?;
 		match reader.read_u8()? {
@@ -1327,12 +1336,12 @@ fn read_element_values_named<A: NamedElementValuesVisitor>(reader: &mut impl Cla
 			b'@' => {
 				let annotation_descriptor = FieldDescriptor::try_from(pool.get_utf8(reader.read_u16()?)?)?;
 				let (visitor, inner) = outer.visit_annotation(name, annotation_descriptor)?;
-				let inner = read_element_values_named(reader, pool, inner)?;
+				let inner = read_element_values_named(reader, pool, inner, depth + 1)?;
 				outer = A::finish_annotation(visitor, inner)?;
 			},
 			b'[' => {
 				let (visitor, inner) = outer.visit_array(name)?;
-				let inner = read_element_values_unnamed(reader, pool, inner)?;
+				let inner = read_element_values_unnamed(reader, pool, inner, depth + 1)?;
 				outer = A::finish_array(visitor, inner)?;
 			},
 			tag => bail!("unknown element_value tag {tag:?}"),
@@ -1342,15 +1351,18 @@ fn read_element_values_named<A: NamedElementValuesVisitor>(reader: &mut impl Cla
 	Ok(outer)
 }
 
-fn read_element_values_unnamed<A: UnnamedElementValuesVisitor>(reader: &mut impl ClassRead, pool: &PoolRead, mut outer: A) -> Result<A> {
+fn read_element_values_unnamed<A: UnnamedElementValuesVisitor>(reader: &mut impl ClassRead, pool: &PoolRead, mut outer: A, depth: u8) -> Result<A> {
 	for _ in 0..reader.read_u16()? {
-		outer = read_element_value_unnamed(reader, pool, outer)?;
+		outer = read_element_value_unnamed(reader, pool, outer, depth)?;
 	}
 
 	Ok(outer)
 }
 
-fn read_element_value_unnamed<A: UnnamedElementValueVisitor>(reader: &mut impl ClassRead, pool: &PoolRead, mut outer: A) -> Result<A> {
+fn read_element_value_unnamed<A: UnnamedElementValueVisitor>(reader: &mut impl ClassRead, pool: &PoolRead, mut outer: A, depth: u8) -> Result<A> {
+	if depth >= MAX_ELEMENT_VALUE_NESTING {
+		bail!("element values are nested more than {MAX_ELEMENT_VALUE_NESTING} levels deep");
+	}
 	match reader.read_u8()? {
 		b'B' => {
 			let const_value_index = reader.read_u16()?;
@@ -1409,12 +1421,12 @@ fn read_element_value_unnamed<A: UnnamedElementValueVisitor>(reader: &mut impl C
 		b'@' => {
 			let annotation_descriptor = FieldDescriptor::try_from(pool.get_utf8(reader.read_u16()?)?)?;
 			let (visitor, inner) = outer.visit_annotation(annotation_descriptor)?;
-			let inner = read_element_values_named(reader, pool, inner)?;
+			let inner = read_element_values_named(reader, pool, inner, depth + 1)?;
 			outer = A::finish_annotation(visitor, inner)?;
 		},
 		b'[' => {
 			let (visitor, inner) = outer.visit_array()?;
-			let inner = read_element_values_unnamed(reader, pool, inner)?;
+			let inner = read_element_values_unnamed(reader, pool, inner, depth + 1)?;
 			outer = A::finish_array(visitor, inner)?;
 		},
 		tag => bail!("unknown `element_value` tag {tag:?}"),
@@ -1436,7 +1448,7 @@ fn read_type_annotations_attribute<A: TypeAnnotationsVisitor<T>, T: TargetInfoRe
 
 		let (visitor, named_element_values_visitor) = type_annotations_visitor.visit_type_annotation(type_reference, type_path, annotation_descriptor)?;
 
-		let named_element_values_visitor = read_element_values_named(reader, pool, named_element_values_visitor)?;
+		let named_element_values_visitor = read_element_values_named(reader, pool, named_element_values_visitor, 0)?;
 
 		type_annotations_visitor = TypeAnnotationsVisitor::finish_type_annotation(visitor, named_element_values_visitor)?;
 	}
@@ -1458,7 +1470,7 @@ fn read_type_annotations_attribute_code<A: TypeAnnotationsVisitor<TargetInfoCode
 
 		let (visitor, named_element_values_visitor) = type_annotations_visitor.visit_type_annotation(type_reference, type_path, annotation_descriptor)?;
 
-		let named_element_values_visitor = read_element_values_named(reader, pool, named_element_values_visitor)?;
+		let named_element_values_visitor = read_element_values_named(reader, pool, named_element_values_visitor, 0)?;
 
 		type_annotations_visitor = TypeAnnotationsVisitor::finish_type_annotation(visitor, named_element_values_visitor)?;
 	}
